@@ -1,5 +1,6 @@
 import TakVerif.Props.C07_fpa2
 import TakVerif.Props.C04_total
+import TakVerif.Proofs.SearchTotalBot
 
 /-! # C07 — the bot with the alpha-beta model as searching player never loses a thinker goroutine
 
@@ -157,6 +158,104 @@ theorem bot_never_dead_minimax_declining (c : Compose.Conf) (hguard : c.guard = 
       (Compose.start c secs (Search.Eng.new (Search.takGame c.bot.basis ev sym) scfg)) evs).dead = none :=
   (minimax_never_dead_of c hsize ev sym scfg hdepth htbl secs evs
     (bot_dead_only_by_search_declining c hguard hrep hdec hfix hsize _ secs _ evs hchk hmoves)).1
+
+
+/-! ## the end-to-end form: no hypothesis about reachable states but the sanity of the check verdicts -/
+
+/-- a move of known origin (the zero move, or generated by `AllMoves` for a 3..8 board) is not the pass -/
+theorem fromGen_not_pass (basis : Array W) (ev : Pos → Int) (sym : Pos → List Search.H) (m : Move)
+    (h : C04.FromGen (Search.takGame basis ev sym) C04.SizeOK m) : m.type ≠ Facts.mtPass := by
+  rcases h with rfl | ⟨q, hq, hm⟩
+  · show (0 : Nat) ≠ Facts.mtPass
+    decide
+  · have hob := Tak.Proofs.allMoves_onboard' q hq.2 m hm
+    obtain ⟨_, _, _, _, ht, _⟩ := hob
+    have := Tak.Proofs.types_cases
+    omega
+
+/-- the thinker a call in progress belongs to was started on a position of `A` -/
+theorem inside_pos_of_pinv {c : Compose.Conf} {S : Searcher σ χ} {G : σ → Prop} {A : Pos → Prop} {p0 : Pos}
+    {s : Compose.St σ χ} (hC : CInv c S G s) (hP : PInv A p0 s.b) :
+    ∀ call, s.inside = some call → A call.pos := by
+  intro call hin
+  obtain ⟨_, t, ht, hpos⟩ := hC.inside call hin
+  rw [← hpos]
+  have hmem : t ∈ thinkers s.b := List.mem_of_getElem? ht
+  unfold thinkers at hmem
+  simp only [List.mem_append, List.mem_singleton] at hmem
+  rcases hmem with hm | rfl
+  · exact hP.old t hm
+  · exact hP.cur
+
+/-- `movesOK_run` for a searching player that never answers the pass from a state satisfying its invariant, on the
+positions of `A` -/
+theorem movesOK_run_on (c : Compose.Conf) (S : Searcher σ χ) (G : σ → Prop) (A : Pos → Prop)
+    (hA : ∀ p m q, A p → p.apply c.bot.basis m = .ok q → A q)
+    (hz : ∀ p q, A p → p.apply c.bot.basis Bot.zeroMove ≠ .ok q)
+    (hS : ∀ x p e m e', A p → G e → S.run x p e = .ok (m, e') → G e')
+    (hSP : ∀ x p e m e', A p → G e → S.run x p e = .ok (m, e') → m.type ≠ Facts.mtPass) {p0 : Pos}
+    (evs : List (Compose.Ev χ)) :
+    ∀ (s : Compose.St σ χ), CInv c S G s → PInv A p0 s.b → Bot.MInv s.b →
+      (∀ e ∈ evs, Compose.EvNoPass e) → MovesOK c S s evs := by
+  induction evs with
+  | nil => intro _ _ _ _ _; trivial
+  | cons e es ih =>
+    intro s hC hP hM hev
+    refine ⟨?_, ih _ (cinv_step (A := A) hS hz hP hC e) (pinv_composed_step hA S hP e)
+      (Compose.minv_composed_step_on hSP (inside_pos_of_pinv hC hP) hC hM e (hev e (List.mem_cons_self ..)))
+      (fun e' he' => hev e' (List.mem_cons_of_mem _ he'))⟩
+    cases e with
+    | enter k chk => exact fun _ => hM
+    | _ => trivial
+
+/-- both engine invariants: the one of the totality proof and the one of the provenance proof -/
+def EngBoth (basis : Array W) (ev : Pos → Int) (sym : Pos → List Search.H) (n : Nat) (e : Search.Eng Move) : Prop :=
+  C04.EngTak n e ∧ EngInv basis ev sym e
+
+/-- **`bot_never_dead_minimax_events`** — the end-to-end statement for the tree as it is now (guard, record notes,
+declining scripts: /repo 89e66ee): `Friendly` with ANY rule or none, or `Taktician`, **with the alpha-beta model as
+searching player** (any evaluator, every option combination, no table or ≥ 1 entries, `Depth ≤ 15`), any colour, size
+3..8, clock and EVERY event list in which no server line parses to the pass and the check verdicts are sane: **no thinker
+goroutine is ever lost**.  Nothing is assumed about the searching player any more: that it returns is
+`C04.getMove_total_tak`, that it never answers the pass is `Search.getMove_engOK` (its answer is the zero move or a
+generated move). -/
+theorem bot_never_dead_minimax_events (c : Compose.Conf) (hguard : c.guard = true) (hrep : c.replay = true)
+    (hdec : c.decline = true) (hfix : c.bot.fixed = true) (hsize : 3 ≤ c.size ∧ c.size ≤ 8)
+    (ev : Pos → Int) (sym : Pos → List Search.H) (scfg : Search.Cfg)
+    (hdepth : scfg.depth ≤ 15) (htbl : scfg.tableEntries ≠ some 0) (secs : Int)
+    (evs : List (Compose.Ev { o : Search.Oracle Move // Search.OrderOK o }))
+    (hchk : ChkOK c (minimaxOK c.bot.basis ev sym scfg)
+      (Compose.start c secs (Search.Eng.new (Search.takGame c.bot.basis ev sym) scfg)) evs)
+    (hev : ∀ e ∈ evs, Compose.EvNoPass e) :
+    (Compose.run c (minimaxOK c.bot.basis ev sym scfg)
+      (Compose.start c secs (Search.Eng.new (Search.takGame c.bot.basis ev sym) scfg)) evs).dead = none := by
+  refine bot_never_dead_minimax_declining c hguard hrep hdec hfix hsize ev sym scfg hdepth htbl secs evs hchk ?_
+  obtain ⟨p0, _, hP⟩ := pinv_startBot_nTak c secs hsize
+  have hA : ∀ (p : Pos) (m : Move) (q : Pos), Search.NTak c.size p → p.apply c.bot.basis m = .ok q → Search.NTak c.size q :=
+    fun p m q hp ha => Search.nTak_apply hp ha
+  have hz : ∀ (p q : Pos), Search.NTak c.size p → p.apply c.bot.basis Bot.zeroMove ≠ .ok q :=
+    fun p q hp => zero_rejected c.bot.basis c.size hsize p q hp.1
+  have hS : ∀ x p e m e', Search.NTak c.size p → EngBoth c.bot.basis ev sym c.size e →
+      (minimaxOK c.bot.basis ev sym scfg).run x p e = .ok (m, e') → EngBoth c.bot.basis ev sym c.size e' :=
+    fun x p e m e' hp he hrun =>
+      ⟨minimax_keeps_engTak c.bot.basis ev sym scfg hdepth c.size hsize.2 x p e m e' hp he.1 hrun,
+       minimax_keeps_engInv c.bot.basis ev sym scfg c.size hsize x p e m e' hp.1 he.2 hrun⟩
+  have hSP : ∀ x p e m e', Search.NTak c.size p → EngBoth c.bot.basis ev sym c.size e →
+      (minimaxOK c.bot.basis ev sym scfg).run x p e = .ok (m, e') → m.type ≠ Facts.mtPass := by
+    intro x p e m e' hp he hrun
+    have hPr := C04.prov_noTable (C04.sizeOK_closed c.bot.basis ev sym) (C04.OrderOK.sub x.2)
+    exact fromGen_not_pass c.bot.basis ev sym m
+      (Search.getMove_engOK hPr scfg p ⟨by rw [hp.1]; exact hsize.1, by rw [hp.1]; exact hsize.2⟩ (Or.inl rfl) e he.2
+        (m, e') hrun).2
+  refine movesOK_run_on c _ (EngBoth c.bot.basis ev sym c.size) (Search.NTak c.size) hA hz hS hSP evs _
+    (cinv_start c _ _ secs _ ⟨C04.engTak_new c.bot.basis ev sym c.size scfg htbl, engInv_new c.bot.basis ev sym scfg⟩) hP ?_ hev
+  intro m hm
+  have : (startBot c secs).moves = [] := by
+    unfold startBot
+    split <;> rfl
+  have hm' : m ∈ (startBot c secs).moves := hm
+  rw [this] at hm'
+  cases hm'
 
 /-- the statement of `Props/C07_compose2.lean`, restricted to the configurations on which it can hold -/
 theorem bot_never_dead_minimax_statement_of_cfg :
